@@ -114,6 +114,7 @@ type originInfo struct {
 }
 
 type Enc struct {
+	lastAllBut map[string]bool
 	origin   map[string]originInfo
 	P        *Program
 	DB       *SpecDB
